@@ -26,4 +26,64 @@ def strictIds (rows : List (Nat × List Nat)) : List (Nat × Nat) :=
   let seqs := distinct (rows.map (·.2))
   rows.map fun r => (r.1, seqs.idxOf r.2 + 1)
 
+/-! ### slices of the morphemes of a word (`_get_slices`)
+
+The segments of a word are a list of tokens, some of which are written separators (`+`, `_`, …).  The morphemes are given
+(computed by `tokens2morphemes` / `lists.n`); the slices are the positions of the morphemes in the token list. -/
+
+/-- position of the first token at or after `cur` that is not a separator -/
+def skipSeps (isSep : Nat → Bool) (toks : List Nat) : Nat → Nat → Nat
+  | 0, cur => cur
+  | fuel + 1, cur => match toks[cur]? with
+    | some t => if isSep t then skipSeps isSep toks fuel (cur + 1) else cur
+    | none => cur
+
+/-- `_get_slices` as repaired: written separators are skipped before every morpheme -/
+def slices (isSep : Nat → Bool) (toks : List Nat) : Nat → List (List Nat) → List (Nat × Nat)
+  | _, [] => []
+  | cur, m :: ms =>
+    let c := skipSeps isSep toks toks.length cur
+    (c, c + m.length) :: slices isSep toks (c + m.length) ms
+
+/-- `_get_slices(split_on_tones=True)` as it was: the separators are not stepped over -/
+def slicesOld (toks : List Nat) : Nat → List (List Nat) → List (Nat × Nat)
+  | _, [] => []
+  | cur, m :: ms => (cur, cur + m.length) :: slicesOld toks (cur + m.length) ms
+
+/-- the morphemes are a decomposition of the tokens: separators, a morpheme without separators, separators, … -/
+def decompOkb (isSep : Nat → Bool) : List Nat → List (List Nat) → Bool
+  | toks, [] => toks.all isSep
+  | toks, m :: ms =>
+    let rest := toks.dropWhile isSep
+    !m.isEmpty && m.all (fun t => !isSep t) && rest.take m.length == m && decompOkb isSep (rest.drop m.length) ms
+
+/-- the maximal runs of tokens between written separators (empty runs are dropped): the morphemes when borders are written -/
+def splitSepsF (isSep : Nat → Bool) : Nat → List Nat → List (List Nat)
+  | 0, _ => []
+  | f + 1, toks =>
+    let rest := toks.dropWhile isSep
+    if rest.isEmpty then []
+    else
+      let m := rest.takeWhile fun t => !isSep t
+      m :: splitSepsF isSep f (rest.drop m.length)
+
+def splitSeps (isSep : Nat → Bool) (toks : List Nat) : List (List Nat) := splitSepsF isSep (toks.length + 1) toks
+
+/-- a morpheme ends after a tone that is not the last token (words without written borders, `split_on_tones`) -/
+def splitTonesF (isTone : Nat → Bool) : Nat → List Nat → List (List Nat)
+  | 0, _ => []
+  | f + 1, toks =>
+    if toks.isEmpty then []
+    else
+      let k := (toks.takeWhile fun t => !isTone t).length + 1       -- up to and including the first tone
+      if (toks.drop k).isEmpty then [toks] else toks.take k :: splitTonesF isTone f (toks.drop k)
+
+def splitTones (isTone : Nat → Bool) (toks : List Nat) : List (List Nat) := splitTonesF isTone (toks.length + 1) toks
+
+/-- `tokens2morphemes(tokens, split_on_tones=sot)`: written borders win; without them a tone ends a morpheme when asked for -/
+def morphemesOf (isSep isTone : Nat → Bool) (sot : Bool) (toks : List Nat) : List (List Nat) :=
+  if toks.any isSep then splitSeps isSep toks
+  else if sot && toks.any isTone then splitTones isTone toks
+  else if toks.isEmpty then [] else [toks]
+
 end Verif.Partial
